@@ -36,7 +36,8 @@ TCmp == Ev("dcmp") /\ LET e == Rec[l] IN
           /\ UNCHANGED <<table, store, uv, run>>
 TGap == Ev("gap") /\ devs' = Add(devs, GapTags(Rec[l])) /\ UNCHANGED <<table, store, uv, run>>
 TWidth == Ev("width") /\ devs' = Add(devs, WidthTags(Rec[l])) /\ UNCHANGED <<table, store, uv, run>>
-Next == TReset \/ TUpd \/ TGet \/ TMust \/ TClearLayer \/ TClear \/ TQuery \/ TDClear \/ TCmp \/ TGap \/ TWidth
+TPanic == Ev("panic") /\ devs' = Add(devs, {IF Rec[l].store = "dominance" THEN "C10 panic" ELSE "C18 panic"}) /\ UNCHANGED <<table, store, uv, run>>
+Next == TPanic \/ TReset \/ TUpd \/ TGet \/ TMust \/ TClearLayer \/ TClear \/ TQuery \/ TDClear \/ TCmp \/ TGap \/ TWidth
 Spec == Init /\ [][Next]_vars
 Report == l = Len(Rec) + 1 => PrintT(<<"RESULT", ToJson([total |-> Len(Rec), devs |-> devs])>>)
 Accepted == TLCGet("stats").diameter - 1 = Len(Rec)
